@@ -195,3 +195,18 @@ Fixpoint insert_coin (c : go_coin) (l : list go_coin) : list go_coin :=
 Definition Coins_IsEqual (a b : list go_coin) : outcome bool :=
   if negb (Nat.eqb (List.length a) (List.length b)) then Ok false
   else Coins_eq_sorted (fold_right insert_coin [] a) (fold_right insert_coin [] b).
+
+(* ---- parameter validation helpers ---- *)
+Definition Dec_IsNil (d : go_dec) : bool := false.               (* a decoded Dec is never the nil one *)
+Definition Dec_IsNegative (d : go_dec) : bool := d <? 0.
+Definition Dec_One : go_dec := PREC.                              (* math.LegacyOneDec() *)
+(* denominations are abstract: a negative one stands for a string that is blank or not a valid denomination *)
+Definition Denom_IsBlank (d : go_denom) : bool := d =? go_zero_denom.
+Definition sdk_ValidateDenom (d : go_denom) : outcome unit := if 0 <=? d then Ok tt else Err 1.
+(* the length of the comma-separated signers string: zero exactly for the empty list *)
+Definition Signers_strlen (l : list go_addr) : Z := Z.of_nat (List.length l).
+
+(* a module account handle (Get<Module>Account): nil when the account is not set *)
+Definition go_modacc := option go_addr.
+Definition modacc_is_nil (m : go_modacc) : bool := match m with None => true | Some _ => false end.
+Definition modacc_addr (m : go_modacc) : go_addr := match m with Some a => a | None => go_zero_addr end.
